@@ -55,12 +55,6 @@ Definition pw_clone_from (dst src : pworld) (fault : option nat) : pworld :=
     whether [World::remove] releases the identifier before ([fact_remove_frees_identifier_first]) or
     after the row is removed: after, a panic leaves the identifier accepted, pointing at a row that is
     gone or that holds another entity. *)
-Definition swap_remove_ids (r : nat) (rows : list nat) : list nat :=
-  match nth_error rows (length rows - 1) with
-  | Some last => if Nat.eqb r (length rows - 1) then removelast rows else removelast (upd r (fun _ => last) rows)
-  | None => rows
-  end.
-
 Definition pw_remove_rows (w : pworld) (a r : nat) : pworld :=
   match nth_error (pw_archs w) a with
   | None => w
@@ -69,7 +63,7 @@ Definition pw_remove_rows (w : pworld) (a r : nat) : pworld :=
                    | Some last => if Nat.ltb r (length rows - 1) then upd last (fun _ => Some (a, r)) (pw_slots w) else pw_slots w
                    | None => pw_slots w
                    end in
-      mkPW (upd a (fun _ => swap_remove_ids r rows) (pw_archs w)) slots
+      mkPW (upd a (fun _ => swap_remove r rows) (pw_archs w)) slots
   end.
 
 Definition pw_free (w : pworld) (i : nat) : pworld := mkPW (pw_archs w) (upd i (fun _ => None) (pw_slots w)).
@@ -95,3 +89,31 @@ Definition winv_b (w : pworld) : bool :=
                                                                  | _ => false end
                                                      | None => true end) (seq 0 (length rows))
                     | None => true end) (seq 0 (length (pw_archs w))).
+
+(** * [Entry::remove] under a panicking [Drop]
+    The row is popped into a buffer, pushed into the archetype of the smaller shape and the entity's location
+    is updated; the detached component is dropped from the buffer.  Whether that drop comes LAST is read off
+    the source ([fact_entry_remove_drops_last], the repair of F2 put it there): dropped before the location
+    update, a panic leaves the identifier pointing at the row's old place, which holds the entity that was
+    moved into it, or nothing. *)
+Definition pw_move_row (w : pworld) (i a r b : nat) : pworld :=
+  let w1 := pw_remove_rows w a r in
+  match nth_error (pw_archs w1) b with
+  | None => w1
+  | Some rows => mkPW (upd b (fun _ => rows ++ [i]) (pw_archs w1)) (upd i (fun _ => Some (b, length rows)) (pw_slots w1))
+  end.
+
+(** identifier [i] at [(a, r)] loses a component and moves to archetype [b]; [panics]: the component's Drop panics *)
+Definition pw_entry_remove_gen (drops_last : bool) (w : pworld) (i a r b : nat) (panics : bool) : pworld :=
+  if drops_last then pw_move_row w i a r b
+  else if panics then
+    (* popped and pushed, the location not yet updated *)
+    let w1 := pw_remove_rows w a r in
+    match nth_error (pw_archs w1) b with
+    | None => w1
+    | Some rows => mkPW (upd b (fun _ => rows ++ [i]) (pw_archs w1)) (pw_slots w1)
+    end
+  else pw_move_row w i a r b.
+
+Definition pw_entry_remove (w : pworld) (i a r b : nat) (panics : bool) : pworld :=
+  pw_entry_remove_gen fact_entry_remove_drops_last w i a r b panics.
